@@ -246,7 +246,9 @@ func (i *interpreter) nondetOf(base string, k types.BasicKind) value {
 		}
 		return concreteOfKind(k, v)
 	}
-	t := i.ctx.Var(smtName(name), w)
+	// the sort is part of the SMT name: one long-lived solver sees the variables of many paths, and the same
+	// harness-level name may be an 8-bit value on one path and a boolean on another
+	t := i.ctx.Var(fmt.Sprintf("%s_w%d", smtName(name), w), w)
 	i.nondets = append(i.nondets, nondet{name, t})
 	return &Sym{T: t, K: k}
 }
@@ -677,14 +679,7 @@ func (i *interpreter) bytesEq(x, y []value) value {
 	if len(x) != len(y) {
 		return false
 	}
-	var acc value = true
-	for k := range x {
-		acc = i.andV(acc, i.equalsV(nil, x[k], y[k]))
-		if acc == false {
-			return false
-		}
-	}
-	return acc
+	return i.seqEq(x, y)
 }
 
 // bytesCompare returns -1/0/+1 as an int value (symbolic when the bytes are).
